@@ -646,3 +646,26 @@ def bad_functor_arguments_diagnosed(chk, rid):
          'with one valid and one misspelt argument is accepted and the misspelt binding '
          'is silently ignored' % (norm(weak.test, 70) if weak is not None else ''),
          fi=v.fi, node=weak)
+
+
+def no_memo_decorators(chk, rid, relpaths):
+  """functools.lru_cache / cache / cached_property keep results beyond the
+  call: the caller receives the SAME object next time (a list that one UDF
+  sorts in place is sorted for the next one) and the outcome depends on what
+  ran before.  None of the listed modules memoises a function today."""
+  repo = chk.repo
+  hits = []
+  for rel in relpaths:
+    m = repo.mod(rel)
+    for x in ast.walk(m.tree):
+      if isinstance(x, (ast.FunctionDef, ast.AsyncFunctionDef)):
+        for d in x.decorator_list:
+          t_ = dotted(d.func) if isinstance(d, ast.Call) else dotted(d)
+          if t_ and t_.split('.')[-1] in ('lru_cache', 'cache', 'cached_property', 'memoize'):
+            hits.append((m, x, t_))
+  chk.ob(rid, not hits,
+         '%s:%s' % (hits[0][0].relpath, hits[0][1].name) if hits else '%s:module' % relpaths[0],
+         'no function of %s is memoised across calls' % ', '.join(r.split('/')[-1] for r in relpaths),
+         '%s is decorated with %s: its result object is shared between calls (and with whoever '
+         'changes it in place), so a value depends on what was computed before'
+         % (hits[0][1].name if hits else '', hits[0][2] if hits else ''))
